@@ -55,6 +55,7 @@ class Gen:
         self.r = rng
         self.profile = profile
         self.forloops = False
+        self.for_targets = []
         self.hist = Counter()
 
     # ---------------------------------------------------------------- expressions
@@ -351,13 +352,13 @@ class Gen:
 
     def stmt(self, d, in_loop):
         r = self.r
-        if self.forloops and d > 0 and r.random() < 0.3:
+        if self.forloops and d > 0 and r.random() < (0.55 if self.for_targets else 0.3):
             self.hist["For"] += 1
             q = r.random()
-            if q < 0.65:
-                it = ("Tuple", [self.simple(1) for _ in range(r.choice([0, 1, 2, 3]))])
+            if q < 0.7:
+                it = ("Tuple", [self.simple(1) for _ in range(r.choice([0, 1, 2, 2, 3, 3]))])
                 self.hist["For.iter-tuple"] += 1
-            elif q < 0.8:
+            elif q < 0.82:
                 it = ("Name", ("U", r.randrange(NV - 1)))
             else:
                 it = self.expr(2)
@@ -366,7 +367,17 @@ class Gen:
             if r.random() < 0.04:
                 self.hist["loop-else"] += 1
                 orelse = self.block(d - 1, in_loop, 1)
-            return ("For", r.randrange(NV), it, self.block(d - 1, True), orelse)
+            if self.for_targets and r.random() < 0.5:
+                x = r.choice(self.for_targets)          # nested loop re-using an enclosing loop's target
+                self.hist["For.nested-same-target"] += 1
+            else:
+                x = r.randrange(NV)
+            if self.for_targets:
+                self.hist["For.nested"] += 1
+            self.for_targets.append(x)
+            body = self.block(d - 1, True)
+            self.for_targets.pop()
+            return ("For", x, it, body, orelse)
         k = r.random()
         if d <= 0 or k < 0.45:
             return self.simple_stmt(max(d, 1) + 1)
